@@ -488,6 +488,7 @@ func (o DecOpt) apply() {
 		}
 		mxj.SetCheckTagToSkipFunc(func(t string) bool { return set[t] })
 	}
+	bystanders()
 }
 
 func (r *Rng) decOpt(castOn bool) DecOpt {
